@@ -6,20 +6,15 @@ import VueJsx.Sem
 
 namespace VueJsx
 
-/-- The props expression, the directives and the v-slots value of an element do not depend on `optimize`
-    (only the separately returned patch flags / dynamic-prop list are used under optimize). -/
-theorem C12_attrs_blind (o : Opts) (b : Bool) (attrs : List Node) (isComp : Bool) (st : St) :
-    transformAttrs { o with optimize := b } attrs isComp st = transformAttrs o attrs isComp st := by
-  have step : ∀ a acc st, attrStep { o with optimize := b } isComp a acc st = attrStep o isComp a acc st := by
-    intro a acc st; rfl
-  have fold : ∀ (as : List Node) acc st, attrFold { o with optimize := b } isComp as acc st = attrFold o isComp as acc st := by
-    intro as
-    induction as with
-    | nil => intro acc st; rfl
-    | cons a rest ih => intro acc st; simp only [attrFold, step, ih]
-  unfold transformAttrs
-  simp only [fold]
-  rfl
+/-- The analysis and lowering of ONE attribute does not look at `optimize`: the props expression, the directives and
+    the v-slots value are built identically (only the separately returned patch flags / dynamic-prop list and the
+    hints inside nested vnode calls are what `optimize` adds). -/
+theorem C12_attrs_blind (o : Opts) (b : Bool) (isComp : Bool) (a : Node) (lowered : Option Node) (acc : AttrAcc) (st : St) :
+    attrStep { o with optimize := b } isComp a lowered acc st = attrStep o isComp a lowered acc st := rfl
+
+/-- ... and neither does the assembly of the props expression. -/
+theorem C12_assemble_blind (o : Opts) (b : Bool) (props mergeArgs : List Node) (st : St) :
+    assembleProps { o with optimize := b } props mergeArgs st = assembleProps o props mergeArgs st := rfl
 
 /-- Under optimize the wrapped slots object is the un-optimised one plus exactly one trailing `_` entry. -/
 theorem C12_wrap_adds_only_hint (o : Opts) (elems : List Node) (flag : Nat) (slots : Option Node) :
